@@ -244,6 +244,16 @@ func (fp *fakePeer) stall(v bool) {
 	}
 }
 
+func (fp *fakePeer) stalledNow() bool {
+	if fp.in == nil || fp.in.peer == nil {
+		return false
+	}
+	w := fp.in.peer.wr
+	w.mu.Lock()
+	defer w.mu.Unlock()
+	return w.stalled
+}
+
 func (fp *fakePeer) disconnect() {
 	if fp.conn != nil && !fp.conn.IsClosed() {
 		fp.s.closeConn(fp.conn)
